@@ -7,6 +7,8 @@ CLAIMS = {
  'C13': dict(text='Bounded model checking: for every request target of <= 7 bytes (all byte values; thorough: 8 bytes, 10 bytes over the property alphabet) the real htp_parse_uri / htp_parse_hostport / port normalisation satisfy the partition-and-rejoin oracle; the SAT solver decides each statement for all inputs inside the bound. Right level because the splitter is leaf index arithmetic whose interesting inputs (delimiter adjacencies) are rare but short.',
              note='Assumes the fixed-capacity bstr_alloc model and the memchr loop model; longer targets and allocation failure are outside the claim. One open known finding (C13-ipv6-tail) is excluded by an input predicate and re-demonstrated on every run.', ref='DESIGN.md section 4 C13'),
 }
+CLAIMS['C17'] = dict(text='Bounded model checking with an inductive step for the list: one (and two) operations of the real htp_list_array_* from EVERY ring state of capacity 1..4 (thorough ..8) equal the abstract sequence and preserve the ring invariant, so histories of any length within that capacity are covered; table as ordered case-insensitive multimap (<=2-3 pairs); every bstr compare/search/prefix/edit primitive against a 5-line mathematical definition (all byte values, haystack <=4-6); number parsers against unsigned __int128 references up to 20 decimal / 17 hex digits (all digit strings around 2^31, 2^63, 2^64).',
+             note='Capacities above 8, longer strings and allocation failure are outside; CBMC ctype models stand in for glibc tolower/isspace. One defect found here was repaired (fix: 756910b, replace at SIZE_MAX).', ref='DESIGN.md section 4 C17')
 NA_REASON = {}
 def main():
     props = [json.loads(l) for l in open(os.path.join(V, 'properties.jsonl'))]
